@@ -137,7 +137,7 @@ func R7(p *core.Prog) *core.Result {
 					switch x := in.(type) {
 					case *ssa.Store:
 						if fa, ok := x.Addr.(*ssa.FieldAddr); ok && fa.X == ssa.Value(f.Params[0]) {
-							n := st.Field(fa.Field).Name()
+							n := core.FieldName(st, fa.Field)
 							if writers[n] == nil {
 								writers[n] = map[*ssa.Function]bool{}
 							}
@@ -145,7 +145,7 @@ func R7(p *core.Prog) *core.Result {
 						}
 					case *ssa.UnOp:
 						if fa, ok := x.X.(*ssa.FieldAddr); ok && x.Op == token.MUL && fa.X == ssa.Value(f.Params[0]) {
-							n := st.Field(fa.Field).Name()
+							n := core.FieldName(st, fa.Field)
 							if readers[n] == nil {
 								readers[n] = map[*ssa.Function]bool{}
 							}
@@ -290,7 +290,7 @@ func R7(p *core.Prog) *core.Result {
 
 func fieldByName(st *types.Struct, name string) *types.Var {
 	for i := 0; i < st.NumFields(); i++ {
-		if st.Field(i).Name() == name {
+		if core.FieldName(st, i) == name {
 			return st.Field(i)
 		}
 	}
